@@ -14,10 +14,16 @@ pub struct RunRequest {
     /// Replay tape; `None` = generate from the seed.
     pub tape: Option<Vec<u64>>,
     pub trace: bool,
+    /// Enumerated scenarios fix the seed of everything else so that the
+    /// scripted exchange is identical across the enumeration.
+    pub seed_override: Option<u64>,
 }
 
 impl RunRequest {
     pub fn run_seed(&self) -> u64 {
+        if let Some(s) = self.seed_override {
+            return s;
+        }
         let mut h = crate::rng::Fnv::default();
         h.str(&self.property);
         crate::rng::mix(&[self.base_seed, h.0, self.run_index])
@@ -44,6 +50,17 @@ impl RunResult {
 }
 
 pub type ScenarioFn = fn(&RunRequest) -> Value;
+
+/// Writes a note line to the report pipe right away, so that it survives a
+/// crash of the child (e.g. which input was being decoded).
+pub fn note(text: &str) {
+    let fd = crate::shims::REPORT_FD.load(std::sync::atomic::Ordering::SeqCst);
+    if fd >= 0 {
+        let mut line = serde_json::to_vec(&json!({"note": text})).unwrap_or_default();
+        line.push(b'\n');
+        unsafe { libc::write(fd, line.as_ptr() as *const libc::c_void, line.len()) };
+    }
+}
 
 /// Runs one simulation in a forked child and collects its report.
 pub fn run_in_child(req: &RunRequest, f: ScenarioFn, wall_limit: Duration) -> RunResult {
@@ -140,9 +157,12 @@ pub fn run_in_child(req: &RunRequest, f: ScenarioFn, wall_limit: Duration) -> Ru
     let text = String::from_utf8_lossy(&out);
     let mut oversize: Option<Value> = None;
     let mut report: Option<Value> = None;
+    let mut notes: Vec<String> = Vec::new();
     for line in text.lines() {
         if let Ok(v) = serde_json::from_str::<Value>(line) {
-            if v.get("oversize_alloc").is_some() {
+            if let Some(n) = v.get("note").and_then(|n| n.as_str()) {
+                notes.push(n.to_string());
+            } else if v.get("oversize_alloc").is_some() {
                 if oversize.is_none() {
                     oversize = Some(v);
                 }
@@ -186,6 +206,10 @@ pub fn run_in_child(req: &RunRequest, f: ScenarioFn, wall_limit: Duration) -> Ru
             wall_ms,
         }
     };
+    if !notes.is_empty() && (res.status == "crash" || res.status == "timeout" || oversize.is_some()) {
+        res.msg = format!("{} [{}]", res.msg, notes.join("; "));
+        res.report["notes"] = json!(notes);
+    }
     if let Some(o) = oversize {
         // An out-of-proportion allocation is a verdict in its own right (C08);
         // it outranks the abort that usually follows.
@@ -364,6 +388,7 @@ pub fn run_batch(
                     run_index: idx,
                     tape: None,
                     trace: false,
+                    seed_override: None,
                 };
                 let res = run_in_child(&req, f, wall_limit);
                 agg.add(&req, &res);
